@@ -10,6 +10,7 @@ import (
 
 	"github.com/samaritan-proxy/samaritan/host"
 	"github.com/samaritan-proxy/samaritan/pb/config/protocol"
+	pbredis "github.com/samaritan-proxy/samaritan/pb/config/protocol/redis"
 	"github.com/samaritan-proxy/samaritan/pb/config/service"
 
 	"verif.local/sim/cluster"
@@ -102,6 +103,9 @@ type redisWorld struct {
 	migActive  int
 	migSeq     int
 	crashSteps []int64
+	strategyTask *simhook.Task // the configuration update that changed the read strategy (fault read-strategy)
+	strategyStep int64
+	strategyDone int64 // step at which that update was seen to have returned (0: not yet)
 	crashSlots []map[int]bool // per crash: the slots the crashed master owned, was migrating away or importing
 	crashTimes []time.Time
 
@@ -282,6 +286,9 @@ func (w *redisWorld) horizon() time.Duration {
 }
 
 func (w *redisWorld) Check() *simrt.Violation {
+	if w.strategyTask != nil && w.strategyDone == 0 && w.strategyTask.State == simhook.StDead {
+		w.strategyDone = w.rt.Step
+	}
 	w.env.Step()
 	if w.env.BuildErr != nil {
 		return &simrt.Violation{Clause: "harness-build", Detail: w.env.BuildErr.Error()}
@@ -563,6 +570,23 @@ func (w *redisWorld) inject(f *Fault) bool {
 		}
 		hs := w.freshHosts(addrs...)
 		w.hostTasks = append(w.hostTasks, w.rt.Go("harness:host-replace", func() { p.OnSvcAllHostReplace(hs) }))
+		return true
+	case "read-strategy":
+		// configuration update: the read strategy becomes f.Dst (0 MASTER, 1 REPLICA, 2 BOTH)
+		if w.env.Proc == nil {
+			return false
+		}
+		p := w.env.Proc
+		cfg := *w.env.SvcCfg
+		var opt protocol.RedisOption
+		if o := cfg.GetRedisOption(); o != nil {
+			opt = *o
+		}
+		opt.ReadStrategy = pbredis.ReadStrategy(f.Dst)
+		cfg.ProtocolOptions = wrapRedisOption(&opt)
+		w.strategyTask = w.rt.Go("harness:config-update", func() { p.OnSvcConfigUpdate(&cfg) })
+		w.hostTasks = append(w.hostTasks, w.strategyTask)
+		w.strategyStep = w.rt.Step
 		return true
 	case "stop":
 		if w.env.Proc == nil || w.stopRequested {
